@@ -63,6 +63,11 @@ def generate(r, tier, prop):
     def related(a, b):
         return a in mro(b) or b in mro(a)
 
+    builtin_roots = set()
+
+    def any_builtin(bs):
+        return any(x in builtin_roots for b in bs for x in mro(b))
+
     for i in range(n):
         x = r.random()
         if x < 0.12 or (x < 0.3 and not classes):
@@ -99,9 +104,13 @@ def generate(r, tier, prop):
                 spec["base"] = bases[0]
                 if len(bases) > 1:
                     spec["bases2"] = bases[1:]
+            if not bases and r.random() < 0.3:
+                spec["meta_only"] = True  # metaclass=DBCMeta used directly, DBC not inherited
+            if not bases and r.random() < 0.15:
+                spec["builtin"] = "list"  # derives from a built-in with its own slot-wrapper __init__ and defines no constructor
             info = {"bases": bases, "own": {}}
             classes[name] = info
-            if not bases or r.random() < 0.4:
+            if (not bases and not spec.get("builtin")) or (bases and not any_builtin(bases) and r.random() < 0.4):
                 spec["init"] = {"super": r.choice(["first", "last"]) if bases else "first"}
                 if r.random() < 0.3:
                     spec["init"]["pre"] = [_cspec(r, forms)]
@@ -146,9 +155,13 @@ def generate(r, tier, prop):
                     src, dst = r.sample(meths, 2)
                     if dst not in info["own"] and not any(x["name"] == dst for x in spec["methods"]):
                         spec["methods"].append({"name": dst, "kind": "alias", "of": "%s.%s" % (b, src)})
+            if spec.get("builtin"):
+                builtin_roots.add(name)
             for k in range(r.choice(inv_counts)):
                 inv = {"check_on": r.choice(inv_mix)}
                 inv.update(_cspec(r, forms))
+                if spec.get("builtin") and r.random() < 0.6:
+                    inv["content"] = "le2"  # the invariant also looks at the content of the (list) object
                 spec["invs"].append(inv)
             if classes and len(classes) > 1 and r.random() < 0.12:
                 # a second, distinct class object with the Python name of an earlier one (class factory, re-executed class statement)
@@ -185,7 +198,7 @@ def generate(r, tier, prop):
             late = []
             for c in sorted(classes):
                 for m, mi in sorted(classes[c]["own"].items()):
-                    if mi["kind"] == "method":
+                    if mi["kind"] in ("method", "prop"):
                         late.append((c, m))
             if late:
                 c, m = r.choice(late)
@@ -216,7 +229,11 @@ def generate(r, tier, prop):
             if role == "pre" and "." in unit:
                 c, mname = unit.split(".")
                 classes[c]["own"][mname]["pre"] = list(classes[c]["own"][mname]["pre"]) + [{}]
-    return {"property": prop, "steps": steps}
+    scn = {"property": prop, "steps": steps}
+    lazy = [s["spec"]["name"] for s in steps if s["op"] == "class" and r.random() < 0.3]
+    if lazy:
+        scn["lazy"] = lazy  # classes that are not exercised when defined: their first use comes after later definitions
+    return scn
 
 
 def _relation(m, new, old):
@@ -278,6 +295,25 @@ def _set_diff(a, b):
             if sa != sb:
                 return (k, sorted(sb - sa), sorted(sa - sb))
     return None
+
+
+def _foreign_effect(m, old, vv):
+    """Probes in which a contract of a class that is neither ``old`` nor one of its ancestors decides old's verdict."""
+    w = m.world
+    if old not in w.classes:
+        return []
+    mro = w.classes[old].__mro__
+    bad = []
+    for k, v in sorted(vv.items()):
+        head, sid = k.split(":", 1)
+        if sid == "ok":
+            continue
+        owner = sid.split("/")[0].split(".")[0]
+        if owner in w.classes and w.classes[owner] not in mro:
+            exp = vv.get(head + ":ok")
+            if exp is not None and v != exp:
+                bad.append((k, exp, v, owner))
+    return bad
 
 
 def _manual_mismatch(manual):
@@ -392,8 +428,21 @@ def execute(scn, want):
             for old in to_probe:
                 manual = [] if (want == "C18") else None
                 vv = m.verdict_vector(old, manual)
-                diffs = _vv_differs(m.stored_vv[old], vv)
                 rel = _relation(m, name, old)
+                if want == "C17":
+                    fe = _foreign_effect(m, old, vv)
+                    if fe:
+                        k, exp, now, owner = fe[0]
+                        violations.append(
+                            {
+                                "rule": "C17.R1",
+                                "classifier": "foreign-contract-decides-verdict:%s:%s" % (_relation(m, owner, old), "inv" if "/inv" in k else "contract"),
+                                "detail": {"step": si, "observed": old, "probe": k, "verdict_with_all_true": exp, "verdict_now": now, "contract_of": owner},
+                            }
+                        )
+                if m.stored_vv[old] is None:
+                    m.stored_vv[old] = vv  # first use of a lazily observed class
+                diffs = _vv_differs(m.stored_vv[old], vv)
                 if old in allowed:
                     # the documented helper changed this unit on purpose: re-baseline
                     m.stored_vv[old] = vv
@@ -433,7 +482,10 @@ def execute(scn, want):
             if name is not None and exc is None and op in ("class", "func"):
                 manual = [] if want == "C18" else None
                 m.stored_fp[name] = m.fingerprint(name)
-                m.stored_vv[name] = m.verdict_vector(name, manual)
+                if name in (scn.get("lazy") or ()) and op == "class":
+                    m.stored_vv[name] = None
+                else:
+                    m.stored_vv[name] = m.verdict_vector(name, manual)
                 defined.append(name)
                 if manual:
                     bad = _manual_mismatch(manual)
